@@ -511,7 +511,11 @@ def run(ctx):
                         inner = peel(r["a"][0], NO_T) if is_call(r, "Some") and r["a"] else {}
                         effects.append(("content", is_call(inner, "datamodel::Data::String") and local_of(inner["a"][0]) == vb))
                 if a.get("k") == "mcall" and a["m"] == "push":
-                    root, fields = hirq.field_chain(a["r"])
+                    recv = peel(a["r"], NO_T)
+                    # `x.param_values.as_mut().unwrap()` / `x.param_values.get_or_insert_with(Vec::new)`: the Vec inside the option
+                    while recv.get("k") == "mcall" and recv["m"] in ("as_mut", "unwrap", "expect", "get_or_insert_with", "get_or_insert", "get_or_insert_default"):
+                        recv = peel(recv["r"], NO_T)
+                    root, fields = hirq.field_chain(recv)
                     if fields[:1] == ["param_values"]:
                         o = hirq.origin(rv, a["a"][0])
                         st = o.get("expr") if o.get("from") == "expr" else None
